@@ -84,7 +84,7 @@ func (t *fnTr) expr(e ast.Expr) (string, string, error) {
 		var args []string
 		var tys []string
 		n := len(x.Args)
-		if name == "strings.Split" || name == "strings.Join" {
+		if name == "strings.Split" || name == "strings.Join" || name == "strings.TrimSuffix" {
 			n = 1
 		}
 		for _, a := range x.Args[:n] {
@@ -101,6 +101,12 @@ func (t *fnTr) expr(e ast.Expr) (string, string, error) {
 			return "(to_lower " + args[0] + ")", "str", nil
 		case name == "getHostname" && len(args) == 1 && tys[0] == "str":
 			return "(src_get_hostname " + args[0] + ")", "str", nil
+		case name == "strings.TrimSuffix" && len(x.Args) == 2 && tys[0] == "str":
+			sep, err := oneByteString(x.Args[1])
+			if err != nil {
+				return "", "", err
+			}
+			return "(trim_suffix_byte " + sep + " " + args[0] + ")", "str", nil
 		case name == "strings.Split" && len(x.Args) == 2 && tys[0] == "str":
 			sep, err := oneByteString(x.Args[1])
 			if err != nil {
